@@ -37,6 +37,7 @@ SPEC = dict(
     props_file="C03.v",
     more_props=[("C03Source.v", "LMScan.C03Source"), ("C03Total.v", "LMScan.C03Total")],
     translate=scan_skel.translate,
+    extra=c02.release_overflow_tie("c03"),
     module="LMScan.C03",
     harness_bin="scan",
     harness_args=["c03"],
